@@ -1,4 +1,5 @@
 mod mgr;
+mod appmsg;
 mod leak;
 mod atrest;
 mod conc;
@@ -7,6 +8,8 @@ mod codec;
 mod store;
 mod world;
 mod invite;
+mod mediaw;
+mod crashw;
 
 fn main() {
     let args: Vec<String> = std::env::args().collect();
@@ -15,7 +18,10 @@ fn main() {
         Some("mgr") => mgr::main(&args[2..]),
         Some("world") => world::main(&args[2..]),
         Some("invite") => invite::main(&args[2..]),
+        Some("mediaw") => mediaw::main(&args[2..]),
+        Some("crashw") => crashw::main(&args[2..]),
         Some("leak") => leak::main(&args[2..]),
+        Some("appmsg") => appmsg::main(&args[2..]),
         Some("atrest") => atrest::main(&args[2..]),
         Some("conc") => conc::main(&args[2..]),
         Some("crash") => crash::main(&args[2..]),
